@@ -200,7 +200,11 @@ def check(case):
     flag = {"yes": cli_args.EntireReloadFlag.yes, "no": cli_args.EntireReloadFlag.no, "force": cli_args.EntireReloadFlag.force}[case["reload"]]
     args = types.SimpleNamespace(acl_safe=safe, entire_reload=flag)
     job = PCDeployerJob(device, args)
-    onr = OldNewResult(device=device, old_files=dict(old), new_files=dict(new_files), safe_new_files=dict(new_files))
+    # what the gen step hands over: the complete plan and the safe plan (the latter legitimately empty when no winner is safe)
+    full_plan = run_file_generators(list(gens), device).new_files(False)
+    onr = OldNewResult(device=device, old_files=dict(old), new_files=dict(full_plan), safe_new_files=dict(new_files) if safe else {})
+    if safe and not new_files and full_plan:
+        labels.append("safe-plan-empty")
     job.parse_result(onr)
     dc = job.deploy_cmds.get(device)
     force = case["reload"] == "force"
